@@ -298,8 +298,18 @@ class FieldReads:
                     else:
                         out |= self._string_values(fn, n.args[1])
                 if _depth < self.depth:
-                    pos = [i for i, a in enumerate(n.args)
-                           if isinstance(a, ast.Name) and a.id in names]
+                    def _is_node(a):
+                        # the node itself, or a rewritten copy of it
+                        # produced by a helper taking only the node
+                        return (isinstance(a, ast.Name) and a.id in names
+                                ) or (isinstance(a, ast.Call)
+                                      and isinstance(a.func, ast.Attribute)
+                                      and norm(a.func.value) == 'self'
+                                      and len(a.args) == 1
+                                      and not a.keywords
+                                      and isinstance(a.args[0], ast.Name)
+                                      and a.args[0].id in names)
+                    pos = [i for i, a in enumerate(n.args) if _is_node(a)]
                     kws = [k.arg for k in n.keywords if k.arg and isinstance(
                         k.value, ast.Name) and k.value.id in names]
                     if pos or kws:
